@@ -86,13 +86,20 @@ func cmdVC(args []string) {
 			continue
 		}
 		t0 := time.Now()
-		ft := e.verifyFunc(f, e.contractOf(f), *safety)
-		fmt.Printf("== %s: %d obligations, %d bytes, %.2fs\n", key, len(ft.obls), ft.decls.Len(), time.Since(t0).Seconds())
-		for _, n := range ft.notes {
-			fmt.Println("   note:", n)
+		for _, ft := range e.verifyFuncAll(f, e.contractOf(f), *safety) {
+			fmt.Printf("== %s %s: %d obligations, %d bytes, %.2fs\n", key, ft.variant, len(ft.obls), ft.decls.Len(), time.Since(t0).Seconds())
+			for _, n := range ft.notes {
+				fmt.Println("   note:", n)
+			}
+			for k := range ft.inlined {
+				fmt.Println("   inlined:", k)
+			}
+			for k := range ft.havocked {
+				fmt.Println("   havocked:", k)
+			}
+			fts = append(fts, ft)
+			obls = append(obls, ft.obls...)
 		}
-		fts = append(fts, ft)
-		obls = append(obls, ft.obls...)
 	}
 	for _, m := range e.cerrors {
 		fmt.Println("CONTRACT ERROR:", m)
